@@ -18,6 +18,7 @@ for _i in range(1, 21):
 SPECS["C05"]["harnesses"] = [("hu", "asan"), ("hn", "asan"), ("xu", "asan"), ("hu", "msan"), ("xn", "msan")]
 SPECS["C20"]["harnesses"] = [("hu", None), ("hn", None), ("xu", None), ("xn", None)]
 SPECS["C19"]["harnesses"] = [("hu", None)]
+SPECS["C16"]["harnesses"] = [("hu", None), ("xu", None), ("hn", None)]
 
 
 def scale(tier, quick, thorough):
@@ -901,7 +902,7 @@ def run_C16(tier, rng, chk):
             else:
                 L.append(gg.parse_line(rng.choice([None, "0A", "2A", "2B", "10A"])))
         hist.append(("c16_hist_%d" % i, L))
-    for variant in ("hu", "xu"):
+    for variant in ("hu", "xu", "hn"):
         out = chk.run_stream(hist, prop="C16", variant=variant)
         res.append(fam("histories(%s build: garbage-prefilled storage, thresholds 3..255, error codes up to 255, special bytes)" % variant, hist, out, variant=variant))
     st = hammer_scripts(rng, tier, "c16_pairs", None, single_flag=False, n_scripts=(40, 250))
